@@ -191,8 +191,19 @@ func checkC15(c *Check) {
 			if !strings.HasSuffix(tn, "pubsub.bus") || f != "evbuf" {
 				return
 			}
-			if a, isA := fa.X.(*ssa.Alloc); isA && a.Comment == "complit" {
-				return // constructor literal, checked below
+			if a, isA := fa.X.(*ssa.Alloc); isA && (a.Comment == "complit" || (fn == ns && a.Heap)) {
+				return // constructor literal / fresh object filled by the subscriber constructor, checked below
+			}
+			if fn == ns {
+				if ld, isLd := fa.X.(*ssa.UnOp); isLd {
+					if slot, isSlot := ld.X.(*ssa.Alloc); isSlot {
+						if sv := singleStore(slot); sv != nil {
+							if a2, isA2 := sv.(*ssa.Alloc); isA2 && a2.Heap {
+								return // the fresh object, held in a local
+							}
+						}
+					}
+				}
 			}
 			switch v := st.Val.(type) {
 			case *ssa.Slice:
@@ -291,6 +302,31 @@ func checkC15(c *Check) {
 					}
 				}
 			}
+		}
+		if !okCopy {
+			// the same copy written as an element-by-element loop into a slice of the parent buffer's length
+			full, elemwise := false, false
+			eachInstr(ns, func(i ssa.Instruction) {
+				st, ok := i.(*ssa.Store)
+				if !ok {
+					return
+				}
+				if ms, isMS := st.Val.(*ssa.MakeSlice); isMS && strings.HasSuffix(Sym(st.Addr), ".evbuf") && nrm(Sym(ms.Len)) == "builtin.len(p:parent.evbuf)" {
+					full = true
+				}
+				if ia, isIA := st.Addr.(*ssa.IndexAddr); isIA && strings.HasSuffix(nrm(Sym(ia.X)), ".evbuf") && !strings.Contains(nrm(Sym(ia.X)), "parent") {
+					if ld, isLd := st.Val.(*ssa.UnOp); isLd {
+						if src, isSrc := ld.X.(*ssa.IndexAddr); isSrc && nrm(Sym(src.X)) == "p:parent.evbuf" && src.Index == ia.Index {
+							if h := loopHeaderOf(st.Block()); h != nil {
+								if ifi, isIf := h.Instrs[len(h.Instrs)-1].(*ssa.If); isIf && strings.Contains(nrm(Sym(ifi.Cond)), "builtin.len(p:parent.evbuf)") {
+									elemwise = true
+								}
+							}
+						}
+					}
+				}
+			})
+			okCopy = full && elemwise
 		}
 		c.Ob("R2", "a clone starts with a copy of the parent's whole undelivered buffer", ns.Pos(), okCopy, "")
 	}
